@@ -380,11 +380,17 @@ pub fn c07(c: &mut Collector, seed: u64, shard: u64, nshards: u64, thorough: boo
             }
             let s = Board::standard();
             h = fnv_mix(h, s.zobrist());
-            let mut e = Engine::default();
-            let t = CountingTimeout::new(if tid < 2 { 30 } else { 30 });
-            let (m, _) = e.search(&s, &ThreeFold::new(), &t);
-            let _ = chess_engine::verif::take_events();
-            h = fnv_mix(h, m.map(|x| x.source.to_u8() as u64).unwrap_or(99));
+            // a middlegame root and an endgame root (the evaluation has a separate endgame part)
+            for (fen, k) in [("rnbqkbnr/pppppppp/8/8/8/8/PPPPPPPP/RNBQKBNR w KQkq - 0 1", 30u64), ("8/8/4k3/8/8/3PK3/8/8 w - - 0 1", 40), ("7k/8/8/8/8/8/8/K7 b - - 0 1", 25)] {
+                if let Ok(b) = chess_movegen::fen::parse_fen(fen.as_bytes()) {
+                    let mut e = Engine::default();
+                    let t = CountingTimeout::new(k);
+                    let (m, sc) = e.search(&b, &ThreeFold::new(), &t);
+                    let _ = chess_engine::verif::take_events();
+                    h = fnv_mix(h, m.map(|x| x.source.to_u8() as u64).unwrap_or(99));
+                    h = fnv_mix(h, refmodel::rng::fnv(crate::engmon::score_str(sc).as_bytes()));
+                }
+            }
             h
         };
         let r = catch_unwind(AssertUnwindSafe(|| {
@@ -402,6 +408,49 @@ pub fn c07(c: &mut Collector, seed: u64, shard: u64, nshards: u64, thorough: boo
             _ => {
                 let site = LAST_PANIC.with(|l| l.borrow().clone());
                 c.violation("safe-api-panicked", &site, format!("concurrent first use of the crates panicked at {site}"), obj());
+            }
+        }
+    }
+    // inputs that end exactly at the end of their allocation (a read past a truncated FEN is only
+    // visible when nothing follows it), and every expiry instant of a tiny search (sentinel scores
+    // meet each other only for particular instants)
+    {
+        c.eval();
+        c.count("exact-allocation-and-expiry-sweep-cases");
+        c.journal("FEN prefixes in exactly sized allocations; expiry sweep on bare kings");
+        let r = catch_unwind(AssertUnwindSafe(|| {
+            let mut h = 0u64;
+            for fen in ["4k3/8/8/8/3pP3/8/8/4K3 b - e3 0 1", "r3k2r/8/8/8/8/8/8/R3K2R w KQkq - 12 34"] {
+                let bytes = fen.as_bytes();
+                let stride = if small { 1 } else { 1 };
+                for n in (0..=bytes.len()).step_by(stride) {
+                    let exact: Box<[u8]> = bytes[..n].to_vec().into_boxed_slice();
+                    h = fnv_mix(h, chess_movegen::fen::parse_fen(&exact).is_ok() as u64);
+                    if let Ok(text) = std::str::from_utf8(&exact) {
+                        let boxed: Box<str> = text.into();
+                        h = fnv_mix(h, boxed.parse::<Board>().is_ok() as u64);
+                    }
+                }
+            }
+            for fen in ["7k/8/8/8/8/8/8/K7 w - - 0 1", "7k/8/8/8/8/8/8/K7 b - - 0 1"] {
+                if let Ok(b) = chess_movegen::fen::parse_fen(fen.as_bytes()) {
+                    for k in 0..28u64 {
+                        let mut e = Engine::default();
+                        let t = CountingTimeout::new(k);
+                        let (m, sc) = e.search(&b, &ThreeFold::new(), &t);
+                        let _ = chess_engine::verif::take_events();
+                        h = fnv_mix(h, m.map(|x| x.dest.to_u8() as u64).unwrap_or(99));
+                        h = fnv_mix(h, refmodel::rng::fnv(crate::engmon::score_str(sc).as_bytes()));
+                    }
+                }
+            }
+            h
+        }));
+        match r {
+            Ok(h) => d.u(h),
+            Err(_) => {
+                let site = LAST_PANIC.with(|l| l.borrow().clone());
+                c.violation("safe-api-panicked", &site, format!("parsing FEN prefixes / sweeping expiry instants panicked at {site}"), obj());
             }
         }
     }
